@@ -38,6 +38,8 @@ fn worker() {
         };
         let res = std::panic::catch_unwind(|| match vec["mode"].as_str().unwrap_or("run") {
             "record" => record_one(&vec),
+            "parse" => run::check_parse(&vec),
+            "reject" => run::check_reject(&vec),
             _ => run::check_vector(&vec),
         });
         let res = match res {
